@@ -5,6 +5,9 @@ from checks import lach_common as lc
 def run(c):
     ex = lc.run_exhaustive(c, c.pick(["x31f_6", "x211f_5"], ["x31f_7_full", "x211f_6"]), "cheaters")
     c.guard("model_dags_with_forks", ex["total"]["dags_with_forks"])
+    # DAGs in which a validator listed as cheater by one block is not listed by the next (scripted, see corpus/scripts)
+    cor = lc.run_exhaustive(c, ["corpus:structural"], "cheaters", orders=2)
+    c.guard("corpus_cheater_missing_in_the_next_block", cor["total"].get("traced_cheater_of_a_block_missing_in_the_next_block", 0))
     res = lc.run_profile(c, "c03", c.pick(14, 200), "cheaters")
     st = res["stats"]
     c.guard("blocks", st.get("blocks", 0))
